@@ -26,8 +26,8 @@
    * message sizes are not negative.
    Entity ids: Go draws them from nanoid; here they are carried by the ops, a signal whose id is
    already in the message is refused by `OInsertSignal` (same id = same Go object = same name, which
-   Go refuses), and `build` ends with the check that the ids of the network are pairwise distinct.
-   That last check is an assumption on the id source made explicit, not a Go check. *)
+   Go refuses).  That the id source never repeats an id is a HYPOTHESIS of `built_wf` (`ids_fresh`: the ids
+   supplied by the ops are pairwise distinct), not a check of `build`. *)
 From Coq Require Import ZArith List String Bool.
 From Acme.C12 Require Import Proto NetModel Load.
 Import ListNotations.
@@ -283,6 +283,24 @@ Definition init (e : entity) : bstate :=
 
 Definition build (e : entity) (ops : list op) : option net :=
   match fold_opt step (init e) ops with
-  | Some st => if nodupb (net_ids (bs_net st)) then Some (bs_net st) else None
+  | Some st => Some (bs_net st)
   | None => None
   end.
+
+(* the entity ids the environment supplies: one per created entity (Go: nanoid, drawn inside the constructors).
+   `built_wf` assumes them pairwise distinct (`ids_fresh`), it does not check it. *)
+Definition op_ids (o : op) : list string :=
+  match o with
+  | ODefAttr e _ => [e_id e]
+  | ODefType t => [type_key t]
+  | ODefUnit u => [unit_key u]
+  | ODefEnum e vals _ => e_id e :: map (fun v : entity * Z => e_id (fst v)) vals
+  | ODefNode e _ _ _ => [e_id e]
+  | ODefBuilder b => [builder_key b]
+  | ONewMessage hdr _ => [e_id (m_ent hdr)]
+  | OInsertSignal s _ _ => [sig_id s]
+  | ONewBus e _ _ _ => [e_id e]
+  | ONewIface _ _ | OAddSentMessage _ | OAddNodeInterface | OAddBus => []
+  end.
+Definition supplied_ids (e : entity) (ops : list op) : list string := e_id e :: flat_map op_ids ops.
+Definition ids_fresh (e : entity) (ops : list op) : Prop := NoDup (supplied_ids e ops).
